@@ -38,6 +38,9 @@ type LossCase struct {
 	// Aged (0 or 17..40): the loss object first serves that many ordinary batches (predictions
 	// and targets strictly inside (0,1)), each checked, before the case proper
 	Aged int `json:"aged,omitempty"`
+	// ResetLeaves (C13): every tracked leaf of the upstream program is reset to a fresh tracked
+	// leaf between Compute and BackPropagate
+	ResetLeaves bool `json:"reset_leaves,omitempty"`
 }
 
 // ageLoss makes the loss object compute n ordinary batches, each compared with the definition.
@@ -97,6 +100,11 @@ func newLossWithOther(kind string, other int) func(p, t tensor.Tensor) (tensor.T
 		mkOthers()
 	}
 	main := newLoss1(kind)
+	if other >= 10 {
+		main = zeroLoss(kind, other)
+		other = 0
+		evid.Class("C12_13.zero_value_loss_struct")
+	}
 	if other == 2 {
 		mkOthers()
 	}
@@ -120,6 +128,8 @@ func newLossWithOther(kind string, other int) func(p, t tensor.Tensor) (tensor.T
 }
 
 func newLoss1(kind string) func(p, t tensor.Tensor) (tensor.Tensor, error) {
+	// other >= 10: the checked object is the zero value of its (field-less) struct type, which
+	// the API allows, instead of the constructor's result
 	switch kind {
 	case "mse":
 		return losses.NewMSE().Compute
@@ -127,6 +137,27 @@ func newLoss1(kind string) func(p, t tensor.Tensor) (tensor.Tensor, error) {
 		return losses.NewBCE().Compute
 	}
 	return losses.NewCE().Compute
+}
+
+// zeroLoss returns Compute of a zero-value loss struct (var l losses.BCE; &losses.CE{}; new(...)).
+func zeroLoss(kind string, form int) func(p, t tensor.Tensor) (tensor.Tensor, error) {
+	switch kind {
+	case "mse":
+		if form%2 == 0 {
+			return (&losses.MSE{}).Compute
+		}
+		return new(losses.MSE).Compute
+	case "bce":
+		if form%2 == 0 {
+			return (&losses.BCE{}).Compute
+		}
+		var l losses.BCE
+		return l.Compute
+	}
+	if form%2 == 0 {
+		return (&losses.CE{}).Compute
+	}
+	return new(losses.CE).Compute
 }
 
 // rejectedLossCalls makes invalid Compute calls on the loss object with the very tensors the
@@ -225,6 +256,8 @@ func genC12(t *rapid.T) LossCase {
 	other := 0
 	if rapid.IntRange(0, 2).Draw(t, "otherobject") == 0 {
 		other = rapid.IntRange(1, 2).Draw(t, "otherwhen")
+	} else if rapid.IntRange(0, 5).Draw(t, "zerovalue") == 0 {
+		other = rapid.IntRange(10, 11).Draw(t, "zeroform")
 	}
 	if rapid.IntRange(0, 9).Draw(t, "subnormal") == 0 {
 		// differences that are zero or subnormal throughout (the squares underflow to 0)
@@ -384,8 +417,11 @@ func genC13(t *rapid.T) LossCase {
 	n := ref.Prod(s)
 	c := LossCase{Kind: kind}
 	c.ShareT = rapid.Bool().Draw(t, "sharetarget")
+	c.ResetLeaves = rapid.IntRange(0, 4).Draw(t, "resetleaves") == 0
 	if rapid.IntRange(0, 2).Draw(t, "otherobject") == 0 {
 		c.Other = rapid.IntRange(1, 2).Draw(t, "otherwhen")
+	} else if rapid.IntRange(0, 5).Draw(t, "zerovalue") == 0 {
+		c.Other = rapid.IntRange(10, 11).Draw(t, "zeroform")
 	}
 	tg, _ := drawProb(t, n, "t", false)
 	for i := range tg { // targets in [0,1]
@@ -596,6 +632,14 @@ func c13Round(c LossCase, compute func(p, t tensor.Tensor) (tensor.Tensor, error
 			more = append(more, lk)
 		}
 		mult = float64(c.Multi + 1)
+	}
+	if c.ResetLeaves {
+		for i, lf := range c.Up.Leaves {
+			if lf.Tracked {
+				lv[i].ResetGradContext(true) // "zero the gradients, then backward"
+			}
+		}
+		evid.Class("C13.leaves_reset_between_compute_and_backward")
 	}
 	if err := tensor.BackPropagate(l); err != nil {
 		return failf("BackPropagate(%s loss) returned error: %v", c.Kind, err)
